@@ -1169,6 +1169,12 @@ impl ConfigState {
                 |fingerprint_err| StateError::ReplaceCertificate(fingerprint_err.to_string()),
             )?,
         );
+        // same name resolution as `add_certificate`, so that the stored entry is
+        // the one a replay of the state (an AddCertificate) reproduces
+        let mut new_certificate = replace.new_certificate.clone();
+        new_certificate
+            .apply_overriding_names()
+            .map_err(|names_err| StateError::ReplaceCertificate(names_err.to_string()))?;
 
         self.certificates
             .get_mut(&replace_address)
@@ -1180,7 +1186,7 @@ impl ConfigState {
 
         self.certificates
             .get_mut(&replace_address)
-            .map(|certs| certs.insert(new_fingerprint.clone(), replace.new_certificate.clone()));
+            .map(|certs| certs.insert(new_fingerprint.clone(), new_certificate));
 
         if !self
             .certificates
